@@ -195,7 +195,7 @@ type Instance struct {
 type modelResult struct {
 	violation string // "" or description (C14)
 	class     string
-	abstained bool // the model met something the property does not speak about and stopped predicting
+	abstained bool   // the model met something the property does not speak about and stopped predicting
 	sawCycle  bool   // an instance with the same path AND the same bytes was open: a true, endless cycle
 	pathCycle bool   // an instance with the same path (any bytes) was open: the implementation may call that recursion
 	mustFail  bool   // the build must not have produced a catalog
